@@ -15,7 +15,8 @@ Inductive callres :=
 | RFact (f : option vn) (iface : bool)   (* calleeNilness[idx] when len > idx (as returned by impl for the callee);
                                             iface = types.IsInterface(result type), used by normalize *)
 | RDynamic.
-Inductive tswhich := TSIndex | TSDefault (hasNil : bool) | TSCase (toiface : bool).
+Inductive tswhich := TSIndex | TSDefault (hasNil : bool) | TSCase (toiface : bool)
+  | TSMulti (isnil : bool).   (* clause with several types: the bound variable is the tag itself; isnil: the 'nil' entry *)
 Inductive slicee := XSlice | XArrPtr | XString.
 
 Inductive instr :=
@@ -155,6 +156,9 @@ Definition process_instr (f : func) (tobranch : option bool) (s : st) (i : instr
           let s1 := sset_outer f s tag NeverNil in
           if toiface then sset_outer f (sset_inner f s1 v (fst (sget f s1 tag))) v NeverNil
           else sset_outer f s1 v (fst (sget f s1 tag))
+      | TSMulti isnil =>
+          if isnil then sset f s v (AlwaysNil, AlwaysNil)
+          else let s1 := sset_outer f s tag NeverNil in sset f s1 v (sget f s1 tag)
       end
   | IExtractCall v r => handle_ret f s v r
   | ISetMaybe v => sset f s v MM
@@ -331,6 +335,10 @@ Inductive exec (f : func) (tobranch : option bool) : env -> instr -> env -> Prop
     exec f tobranch r (IExtractTS v tag (TSCase true)) (eset r v (SHold b))
 | E_ts_case_conc r v tag b : r tag = Some (SHold b) ->
     exec f tobranch r (IExtractTS v tag (TSCase false)) (eset r v (held_shape (vi f v) b))
+| E_ts_multi r v tag sh : r tag = Some sh -> outer_nil sh = false ->
+    exec f tobranch r (IExtractTS v tag (TSMulti false)) (eset r v (if ptr f v then sh else SNon))
+| E_ts_multi_nil r v tag sh : r tag = Some sh -> outer_nil sh = true ->
+    exec f tobranch r (IExtractTS v tag (TSMulti true)) (eset r v (if ptr f v then sh else SNon))
 | E_extract_call r v cr sh : call_result_ok f r v cr sh -> exec f tobranch r (IExtractCall v cr) (eset r v sh)
 | E_setmaybe r v sh : wf_shape (vi f v) sh = true -> exec f tobranch r (ISetMaybe v) (eset r v sh)
 | E_def r v : ptr f v = false -> exec f tobranch r (IDef v) (eset r v SNon)
